@@ -110,6 +110,12 @@ impl TryFrom<&str> for OnionV3Address {
 	type Error = OnionV3Error;
 
 	fn try_from(input: &str) -> Result<Self, Self::Error> {
+		// hex and base32 are both plain ASCII
+		if !input.is_ascii() {
+			return Err(OnionV3Error::AddressDecoding(
+				"Input address contains non-ASCII characters".to_owned(),
+			));
+		}
 		// First attempt to decode a pubkey from hex
 		if let Ok(b) = from_hex(input) {
 			if b.len() == 32 {
@@ -148,6 +154,11 @@ impl TryFrom<&str> for OnionV3Address {
 			}
 		};
 
+		if address.len() < 32 {
+			return Err(OnionV3Error::AddressDecoding(
+				"(Interpreted as Base32 String) Input address is too short".to_owned(),
+			));
+		}
 		let mut retval = OnionV3Address([0; 32]);
 		retval.0.copy_from_slice(&address[0..32]);
 
